@@ -378,11 +378,15 @@ class Legacy:
             return getattr(ebb_serial, name[7:])
         return getattr(ebb_motion, name)
 
-    def call(self, name, pos, port=True):
+    def call(self, name, pos, port=True, by_keyword=False):
         mark = self.log.mark()
         raised = None
         try:
-            result = self.func(name)(self.port if port else None, *pos)
+            if by_keyword and pos:
+                a, k = keywordize(self.func(name), pos, skip_first=True)
+                result = self.func(name)(self.port if port else None, *a, **k)
+            else:
+                result = self.func(name)(self.port if port else None, *pos)
         except Exception as exc:        # observed
             result, raised = None, exc
         return mark, result, raised
@@ -391,7 +395,10 @@ class Legacy:
 def run_legacy(ctx, rng, name, kind, ref_fn, fixed=None):
     args, pos, classes = fixed or gen_args(rng, kind)
     leg = Legacy()
-    mark, _res, raised = leg.call(name, pos)
+    kw = fixed is None and bool(pos) and rng.random() < 0.25
+    if kw:
+        classes = classes + ["call style: arguments by keyword"]
+    mark, _res, raised = leg.call(name, pos, by_keyword=kw)
     problems = []
     got = wire_lines(ctx, leg.log, mark, problems)
     ref = ref_fn(args)
@@ -407,6 +414,22 @@ def run_legacy(ctx, rng, name, kind, ref_fn, fixed=None):
     return got
 
 
+def keywordize(fn, pos, skip_first=False):
+    """(positional part, keyword part) for calling fn with its trailing arguments by keyword; the
+    parameter names come from the function as it is now (renaming one is not a violation)."""
+    import inspect
+    try:
+        names = [p.name for p in inspect.signature(fn).parameters.values()
+                 if p.kind in (p.POSITIONAL_OR_KEYWORD, p.KEYWORD_ONLY)]
+    except (TypeError, ValueError):
+        return list(pos), {}
+    if skip_first:
+        names = names[1:]
+    if len(names) < len(pos):
+        return list(pos), {}
+    return [], dict(zip(names, pos))
+
+
 def run_ebb3(ctx, rng, name, kind, ref_fn, fixed=None, board=None):
     args, pos, classes = fixed or gen_args(rng, kind)
     board = board or {"version": "3.0.2", "en1": rng.random() < 0.5, "en2": rng.random() < 0.5, "mode": rng.randint(1, 5)}
@@ -414,11 +437,16 @@ def run_ebb3(ctx, rng, name, kind, ref_fn, fixed=None, board=None):
     world.attach()
     prior = (world.board.en1, world.board.en2, world.board.mode)
     mark = world.log.mark()
-    top, _ = ebb3mon.call_step(world, {"m": name, "a": pos})
+    step = {"m": name, "a": pos}
+    if pos and fixed is None and rng.random() < 0.25:
+        a, k = keywordize(getattr(type(world.obj).__mro__[1], name), pos, skip_first=True)
+        step = {"m": name, "a": a, "k": k}
+        classes = classes + ["call style: arguments by keyword"]
+    top, _ = ebb3mon.call_step(world, step)
     problems = []
     got = wire_lines(ctx, world.log, mark, problems)
     ref = ref_fn(args, prior)
-    witness = {"layer": "ebb3", "helper": name, "args": pos, "ref_args": args, "board": board}
+    witness = {"layer": "ebb3", "helper": name, "args": pos, "ref_args": args, "board": board, "keywords": step.get("k")}
     ctx.case(["ebb3", "ebb3:" + name] + classes, ("ebb3", name, json.dumps(pos), prior if name == "motors_enable" else 0),
              nontrivial=bool(ref) if not isinstance(ref, tuple) else ref[1] > 0)
     if top is None or "raised" in top:
@@ -584,6 +612,7 @@ def run(ctx):
         ctx.need(cls, 30)
     ctx.need("pause:more than 4000 chunks", 4)
     ctx.need("session: same call repeated", 3000)
+    ctx.need("call style: arguments by keyword", 3000)
     ctx.need("session: another call on the same object", 5000)
     ctx.need("monitor:writes parsed", 20000)
     ctx.need("monitor:layer pairs compared", 3000)
